@@ -896,7 +896,10 @@ def gen_malformed(rng, version, sym):
             kids = list(sym.nodes.get(node, {}).get("children", {})) or [0]
             child = 255 if typ == 3 or (typ == 0 and sub in (17, 18)) else rng.choice(kids)
             payload = rng.choice(c03.class_corpus(rule))
-            if ";" not in payload and "\n" not in payload and len(payload) < 200:
+            # (version strings outside the numeric grammar are C03's and C18's business: the gateway model
+            # counts them as rejected, the library may know them)
+            if ";" not in payload and "\n" not in payload and len(payload) < 200 \
+                    and (rule != "version" or c03.version_modelled(payload)):
                 return f"{node};{child};{typ};0;{sub};{payload}\n"
     if r < 0.8:
         # valid header, arbitrary payload
